@@ -44,15 +44,32 @@ class Spec:
         return None
 
 
+_SKIP_MODULES = ("threading", "multiprocessing", "_thread", "logging", "hsverif", "types", "functools")
+
+
 def plain_attrs(store):
-    """Plain-data attributes of a store instance (everything that is not a lock/condition/logger)."""
+    """Data attributes of a store instance (everything that is not a lock/condition/logger).  Values that can be
+    pickled are carried by value; anything else (a hash object, a buffer, a helper object) is represented by
+    ("opaque", fingerprint) - a state that drifted in such an attribute is re-created by replaying its history."""
+    from . import gstate
     out = {}
     for k, v in vars(store).items():
         if isinstance(v, (str, int, float, bool, type(None), list, dict, set, tuple)):
-            out[k] = pickle.loads(pickle.dumps(v))
+            try:
+                out[k] = pickle.loads(pickle.dumps(v))
+            except Exception:  # noqa: BLE001
+                out[k] = ("opaque", gstate.fingerprint(v))
         elif isinstance(v, os.PathLike):
             out[k] = ("path", os.fspath(v))
+        elif (type(v).__module__ or "").split(".")[0] in _SKIP_MODULES or callable(v):
+            continue
+        else:
+            out[k] = ("opaque", gstate.fingerprint(v))
     return out
+
+
+def is_opaque(v):
+    return isinstance(v, tuple) and len(v) == 2 and v[0] == "opaque"
 
 
 def _worker_init():
@@ -63,6 +80,7 @@ def _expand(task):
     tree, aux, depth, hist = task
     root = os.path.join(common.scratch(), "store")
     res = []
+    _SPEC.cur_history = [_SPEC.ops[j] for j in hist]  # for states whose hidden state must be re-created by replay
     for i, op in enumerate(_SPEC.ops):
         nt, naux, viol, obs = _SPEC.transition(root, tree, aux, op)
         res.append((i, nt, naux, viol, obs))
@@ -105,27 +123,36 @@ def explore(spec, max_depth=None, max_states=None, time_cap=None, workers=None, 
                 break
             nxt = []
             rng.shuffle(frontier)
-            for hist, d, out in pool.imap_unordered(_expand, frontier, chunksize=1):
-                for i, nt, naux, viol, obs in out:
-                    res.transitions += 1
-                    res.outcomes[(spec.ops[i][0], obs)] += 1
-                    h2 = hist + [i]
-                    for sig, det in viol:
-                        det = dict(det)
-                        det["history"] = [list(spec.ops[j]) for j in h2]
-                        res.violations.append((sig, det))
-                    if naux is None:
-                        res.pruned += 1
-                        continue
-                    k = (tree_key(nt, spec.key_dirs), spec.aux_key(naux))
-                    if k not in seen:
-                        seen.add(k)
-                        res.states += 1
-                        nxt.append((nt, naux, d + 1, h2))
-                        if len(res.samples) < 6 and len(h2) >= 2 and rng.random() < 0.05:
-                            res.samples.append([common.jsonable(spec.ops[j]) for j in h2])
-                if time_cap and time.time() - t0 > time_cap:
+            # the frontier is handed to the pool in slices that are drained completely: a time cap then never leaves a
+            # backlog of large pending tasks behind (Pool.terminate() can block for ever on one)
+            timed_out = False
+            for lo in range(0, len(frontier), 256):
+                for hist, d, out in pool.imap_unordered(_expand, frontier[lo:lo + 256], chunksize=1):
+                    for i, nt, naux, viol, obs in out:
+                        res.transitions += 1
+                        res.outcomes[(spec.ops[i][0], obs)] += 1
+                        h2 = hist + [i]
+                        for sig, det in viol:
+                            det = dict(det)
+                            det["history"] = [list(spec.ops[j]) for j in h2]
+                            res.violations.append((sig, det))
+                        if naux is None:
+                            res.pruned += 1
+                            continue
+                        k = (tree_key(nt, spec.key_dirs), spec.aux_key(naux))
+                        if k not in seen:
+                            seen.add(k)
+                            res.states += 1
+                            nxt.append((nt, naux, d + 1, h2))
+                            if len(res.samples) < 6 and len(h2) >= 2 and rng.random() < 0.05:
+                                res.samples.append([common.jsonable(spec.ops[j]) for j in h2])
+                if time_cap and time.time() - t0 > time_cap and lo + 256 < len(frontier):
+                    timed_out = True
+                    res.cap = "time cap %ds at depth %d (%d of %d frontier states not expanded)" % (
+                        time_cap, depth, len(frontier) - lo - 256, len(frontier))
                     break
+            if timed_out:
+                break
             depth += 1
             res.max_depth = depth if nxt else res.max_depth
             if nxt:
